@@ -195,4 +195,143 @@ theorem memFrom_max {cur rs inR} (h : WF cur rs inR) {x : Nat} (hx : UMAX ≤ x)
       have := SortedFrom.not_mem_max c x hx
       simp [memFrom, this]; omega
 
+/-! ## The loop -/
+
+/-- Exactly one of two propositions holds. -/
+def XorP (a b : Prop) : Prop := (a ∧ ¬ b) ∨ (¬ a ∧ b)
+
+theorem step_algebra {cur no x : Nat} {a a' P P' Q Q' : Prop} {bo bn : Bool}
+    (hle : cur ≤ no)
+    (hacc : a' ↔ a ∨ ((bo != bn) = true ∧ cur ≤ x ∧ x < no))
+    (hP : cur ≤ x → x < no → (P ↔ bo = true)) (hQ : cur ≤ x → x < no → (Q ↔ bn = true))
+    (hP' : no ≤ x → (P ↔ P')) (hQ' : no ≤ x → (Q ↔ Q')) :
+    (a' ∨ (no ≤ x ∧ XorP P' Q')) ↔ (a ∨ (cur ≤ x ∧ XorP P Q)) := by
+  by_cases h1 : x < no
+  · by_cases h2 : cur ≤ x
+    · have nl : ¬ no ≤ x := by omega
+      rw [hacc, hP h2 h1, hQ h2 h1]
+      cases bo <;> cases bn <;> simp [XorP, h1, h2, nl]
+    · have nl : ¬ no ≤ x := by omega
+      rw [hacc]
+      simp [h2, nl]
+  · have h3 : no ≤ x := by omega
+    have h4 : cur ≤ x := by omega
+    rw [hacc, hP' h3, hQ' h3]
+    simp [h1, h3, h4]
+
+theorem acc_step (racc0 : List TSRange) (cur no : Length) (bo bn : Bool)
+    (ha : Chain (cur.bytes + 1) racc0) (hle : cur.bytes ≤ no.bytes) :
+    Chain (no.bytes + 1) (if _h : (bo != bn) = true then addRev racc0 cur no else racc0) ∧
+    ∀ x, mem (if _h : (bo != bn) = true then addRev racc0 cur no else racc0) x ↔
+      (mem racc0 x ∨ ((bo != bn) = true ∧ cur.bytes ≤ x ∧ x < no.bytes)) := by
+  split
+  · have := addRev_spec racc0 cur no ha hle
+    refine ⟨this.1, fun x => ?_⟩
+    rw [this.2]; simp_all
+  · refine ⟨Chain.mono (by omega) ha, fun x => ?_⟩
+    simp_all
+
+theorem symDiffLoop_spec (old new : List TSRange) (cur : Length) (inOld inNew : Bool) (racc : List TSRange)
+    (ho : WF cur.bytes old inOld) (hn : WF cur.bytes new inNew) (hc : cur.bytes ≤ UMAX)
+    (ha : Chain (cur.bytes + 1) racc) :
+    (∃ hi, Chain hi (symDiffLoop old new cur inOld inNew racc)) ∧
+    ∀ x, mem (symDiffLoop old new cur inOld inNew racc) x ↔
+      (mem racc x ∨ (cur.bytes ≤ x ∧ XorP (memFrom old inOld x) (memFrom new inNew x))) := by
+  fun_induction symDiffLoop old new cur inOld inNew racc
+  case case1 old new cur inOld inNew racc h =>
+    obtain ⟨rfl, rfl⟩ := h
+    exact ⟨⟨_, ha⟩, fun x => by simp [memFrom, XorP]⟩
+  case case2 old new cur inOld inNew racc h1 h2 =>
+    refine ⟨⟨_, ha⟩, fun x => ?_⟩
+    have hmax : cur.bytes ≤ x → UMAX ≤ x := by
+      intro hx
+      rcases h2 with ⟨rfl, rfl⟩ | ⟨rfl, rfl⟩
+      · simp [WF] at ho; omega
+      · simp [WF] at hn; omega
+    constructor
+    · exact Or.inl
+    · rintro (h | ⟨hx, hxor⟩)
+      · exact h
+      · have := memFrom_max ho (hmax hx)
+        have := memFrom_max hn (hmax hx)
+        simp_all [XorP]
+  case case3 old new cur inOld inNew racc0 h1 h2 no nn hlt racc ih =>
+    have hle : cur.bytes ≤ no.bytes := cur_le_nextPos ho hc
+    have hno : no.bytes ≤ UMAX := nextPos_le_max ho
+    have hacc := acc_step racc0 cur no inOld inNew ha hle
+    have ih' := ih (WF_adv ho) (WF.mono hn hle (Nat.le_of_lt hlt)) hno hacc.1
+    refine ⟨ih'.1, fun x => ?_⟩
+    rw [ih'.2 x]
+    exact step_algebra hle (hacc.2 x)
+      (fun a b => memFrom_before ho a b)
+      (fun a b => memFrom_before hn a (Nat.lt_trans b hlt))
+      (fun a => memFrom_after ho a) (fun _ => Iff.rfl)
+  case case4 old new cur inOld inNew racc0 h1 h2 no nn hnlt hlt racc ih =>
+    have hle : cur.bytes ≤ nn.bytes := cur_le_nextPos hn hc
+    have hnn : nn.bytes ≤ UMAX := nextPos_le_max hn
+    have hacc := acc_step racc0 cur nn inOld inNew ha hle
+    have ih' := ih (WF.mono ho hle (Nat.le_of_lt hlt)) (WF_adv hn) hnn hacc.1
+    refine ⟨ih'.1, fun x => ?_⟩
+    rw [ih'.2 x]
+    exact step_algebra hle (hacc.2 x)
+      (fun a b => memFrom_before ho a (Nat.lt_trans b hlt))
+      (fun a b => memFrom_before hn a b)
+      (fun _ => Iff.rfl) (fun a => memFrom_after hn a)
+  case case5 old new cur inOld inNew racc0 h1 h2 no nn hnlt hnlt' racc ih =>
+    have heq : no.bytes = nn.bytes := by omega
+    have hle : cur.bytes ≤ nn.bytes := cur_le_nextPos hn hc
+    have hnn : nn.bytes ≤ UMAX := nextPos_le_max hn
+    have hacc := acc_step racc0 cur nn inOld inNew ha hle
+    have ih' := ih (heq ▸ WF_adv ho) (WF_adv hn) hnn hacc.1
+    refine ⟨ih'.1, fun x => ?_⟩
+    rw [ih'.2 x]
+    exact step_algebra hle (hacc.2 x)
+      (fun a b => memFrom_before ho a (heq ▸ b))
+      (fun a b => memFrom_before hn a b)
+      (fun a => memFrom_after ho (heq ▸ a)) (fun a => memFrom_after hn a)
+
+/-- Converse of `Chain.strictSorted`. -/
+theorem chain_of_strictSorted {hi : Nat} : ∀ {l : List TSRange}, StrictSorted l.reverse →
+    (∀ r ∈ l, r.end_byte < hi) → Chain hi l
+  | [], _, _ => trivial
+  | q :: t, hs, hb => by
+    obtain ⟨hp, hne⟩ := hs
+    rw [List.reverse_cons, List.pairwise_append] at hp
+    obtain ⟨hpt, _, hx⟩ := hp
+    refine ⟨hne q (by simp), hb q (by simp), ?_⟩
+    refine chain_of_strictSorted ⟨hpt, fun r hr => hne r (by simp at hr ⊢; exact Or.inl hr)⟩ ?_
+    intro r hr
+    exact hx r (List.mem_reverse.2 hr) q (by simp)
+
+theorem WF_false_of_sorted {rs : List TSRange} (h : SortedFrom 0 rs) : WF 0 rs false := by
+  cases rs <;> simp_all [WF]
+
+theorem memFrom_false (rs : List TSRange) (x : Nat) : memFrom rs false x ↔ mem rs x := by
+  cases rs <;> simp [memFrom]
+
+theorem intersectsFrom_spec : ∀ (rs : List TSRange) (a b : Nat), StrictSorted rs →
+    (intersectsFrom rs a b = true ↔ ∃ r ∈ rs, a < r.end_byte ∧ r.start_byte < b)
+  | [], _, _, _ => by simp [intersectsFrom]
+  | r :: t, a, b, hs => by
+    have hst : StrictSorted t := ⟨(List.pairwise_cons.1 hs.1).2, fun q hq => hs.2 q (List.mem_cons_of_mem _ hq)⟩
+    have hlater : ∀ q ∈ t, r.end_byte < q.start_byte := (List.pairwise_cons.1 hs.1).1
+    have hr := hs.2 r (by simp)
+    unfold intersectsFrom
+    split
+    · split
+      · constructor
+        · intro h; cases h
+        · rintro ⟨q, hq, h1, h2⟩
+          rcases List.mem_cons.1 hq with rfl | hq
+          · omega
+          · have := hlater q hq; omega
+      · simp; exact Or.inl ⟨by omega, by omega⟩
+    · rw [intersectsFrom_spec t a b hst]
+      constructor
+      · rintro ⟨q, hq, h⟩; exact ⟨q, List.mem_cons_of_mem _ hq, h⟩
+      · rintro ⟨q, hq, h1, h2⟩
+        rcases List.mem_cons.1 hq with rfl | hq
+        · omega
+        · exact ⟨q, hq, h1, h2⟩
+
 end TsVerif.C04
